@@ -35,7 +35,7 @@ RULES = {
    "m[lo:hi] for a map m is accepted and emitted (Go: cannot slice m)", "util_gengo.go Slice: *types.Map falls into the default branch"),
   ("KF-C01-13", "map-index-key-not-checked", r'^accepted-although-key/index/map$',
    "m[k] with a key not assignable to the map's key type (vm[1], vm[vi] for map[string]int) is accepted", "util_gengo.go Index: map branch takes the element type without matching the key"),
-  ("KF-C01-14", "literal-keys-not-checked-for-duplicates-or-sign", r'^accepted-although-(dupkey|negkey)/(array|slice|map)-literal$|^accepted-although-dupfield/struct-literal',
+  ("KF-C01-14", "literal-keys-not-checked-for-duplicates-or-sign", r'^accepted-although-(dupkey|negkey)/(array|slice|map)-literal$|^accepted-although-dupkey/open-array-literal/|^accepted-although-dupfield/struct-literal',
    "composite literals accept duplicate constant keys ([]int{0: 1, 0: 2}, map[string]int{\"s\": 1, \"s\": 2}, S{a: 1, a: 2}) and negative indices ([]int{-1: 1})", "util_gengo.go SliceLitEx / ArrayLitEx / MapLitEx / StructLit"),
   ("KF-C01-15", "keyed-array-literal-skips-the-element-range-check", r'^accepted-although-elem/array-literal$',
    "[2]int8{1: 300, 0: 1}: in a keyed array literal an element constant that is not representable in the element type is accepted", "util_gengo.go ArrayLitEx keyVal branch"),
@@ -57,8 +57,6 @@ RULES = {
    "0.0 % c_int / c_int % 2.0 (untyped float constant with integral value, valid after conversion to the integer type) dies inside go/constant (invalid binary operation)", "ast.go binaryOp folds without converting the untyped operand"),
   ("KF-C02-5", "integral-float-constant-rejected-as-literal-key", r'^rejected-valid/((array|slice|map)-literal/integral-float-key|struct-literal/\S+/integral-float-value)$',
    "[]int{1.0: 5}, [2]int{1.0: 5}, map[int]string{1.0: \"s\"}, S{1.0, \"s\"} (field a int): an untyped float constant with integral value is a valid index / int key / int value (same family as KF-C02-1) and is rejected", "util_gengo.go literal key handling; template.go assignableTo (untyped float to integer types)"),
-  ("KF-C02-4", "exposed-composite-literal-in-statement-header-not-parenthesised", r'^emitted-code-does-not-parse/[a-z-]+/literal-exposed/',
-   "a composite literal of a named type that is exposed in an if / for / switch / range header (if N{v: 1}.ok {, for i := N{v: 1}.v; .., switch N{v: 1}.M().v {) is emitted without the parentheses Go requires there: the output does not parse. Only operands of binary operators and switch tags are protected, and only through plain selector chains (CheckParenExpr)", "internal/target/util/util_gengo.go:85 CheckParenExpr, called from ast.go:847, codebuild.go:1885, util_gengo.go:1095 only"),
  ],
  "C06": [
   ("KF-C06-1", "generic-function-value-accepted-for-interface-parameter", r'^generic-function-value-accepted-for-interface-parameter/',
@@ -83,8 +81,6 @@ RULES = {
  "C12": [
   ("KF-C12-1", "statement-comments-printed-at-column-zero", r'^comments/not-a-gofmt-fixed-point/comment-indentation$',
    "a comment group attached to a statement with SetComments is printed at column 0 instead of at the indentation of its statement: the written text is not a fixed point of gofmt (the repository's own expected strings pin this layout)", "internal/go/printer/nodes.go:1321 statement-comment hook prints the position-less comment text as is"),
-  ("KF-C12-2", "exposed-composite-literal-in-statement-header-not-parenthesised", r'^emitted-code-does-not-parse/[a-z-]+/literal-exposed/',
-   "the tree the builder holds for a composite literal of a named type exposed in an if / for / switch / range header has no parentheses, so the written text does not parse back (same root cause as KF-C02-4: only binary operands and switch tags reached through plain selector chains are protected)", "internal/target/util/util_gengo.go:85 CheckParenExpr and its three call sites"),
  ],
  "C03": [
   ("KF-C03-1", "typed-constant-result-reported-untyped", r'^type (int|int8|uint8|MyInt) reported as untyped int \[constant-operands',
